@@ -25,6 +25,10 @@ RULE = ("appsdrive: histories of 40 blocks on a 3-validator / 3-application / 6-
 
 
 def run(ctx):
+    import importlib.util, os as _os
+    _sp = importlib.util.spec_from_file_location("_writers", _os.path.join(_os.path.dirname(__file__), "_writers.py"))
+    _w = importlib.util.module_from_spec(_sp); _sp.loader.exec_module(_w)
+    _w.run(ctx, ['x/apps/keeper', 'x/apps'])
     ctx.lean_proofs("Props.C20")
     ctx.rule(RULE)
     ctx.trust("BigInt/BigDec overflow panics are not modelled (amounts < 2^63 in the harness)",
